@@ -125,7 +125,14 @@ def layer_correspondence(ctx, tmp):
                 a = A()
                 setattr(a, n, v)
                 rs = ResourceSet(); r = rs.create_resource(URI(path)); r.append(a)
-                r.save(options={JsonOptions.SERIALIZE_DEFAULT_VALUES: sd})
+                try:
+                    r.save(options={JsonOptions.SERIALIZE_DEFAULT_VALUES: sd})
+                    rs2 = ResourceSet(); rs2.metamodel_registry[pk.nsURI] = pk
+                    back = getattr(rs2.get_resource(URI(path)).contents[0], n)
+                except Exception as e:
+                    ctx.violate({'clause': 'single-attribute-value', 'error': type(e).__name__},
+                                f'{n}={v!r} (serialize defaults {sd}): save/load raised {type(e).__name__}: {e}', {'kind': 'layer', 'feature': n})
+                    continue
                 d = json.load(open(path))
                 if n not in d:
                     form = 'absent'
@@ -137,8 +144,6 @@ def layer_correspondence(ctx, tmp):
                     form = str(d[n])
                 else:
                     form = 'str:' + enc(d[n])
-                rs2 = ResourceSet(); rs2.metamodel_registry[pk.nsURI] = pk
-                back = getattr(rs2.get_resource(URI(path)).contents[0], n)
                 ctx.evaluations += 1
                 ctx.count('layer/' + form.split(':')[0])
                 model_in.append(f'one {int(sd)} {tok(dflt)} {tok(v)}'); expect.append((n, sd, v, form))
